@@ -20,6 +20,8 @@ EXPECT = {
     "seed-C18": ["C18"], "seed-C19": ["C19"],
     "seed-C01-b": ["C01"], "seed-C02-b": ["C02"], "seed-C03-b": ["C03"], "seed-C09-b": ["C09"], "seed-C12-b": ["C12", "C04"], "seed-C13-b": ["C13"],
     "seed-C14-b": ["C14"], "seed-C16-b": ["C16", "C03"],
+    "seed-C05-c": ["C05"], "seed-C06-c": ["C06"], "seed-C07-c": ["C07"], "seed-C08-c": ["C08", "C03"], "seed-C10-c": ["C10"], "seed-C11-c": ["C11", "C03"],
+    "seed-C15-c": ["C15"], "seed-C17-c": ["C17"], "seed-C18-c": ["C18"], "seed-C19-c": ["C19"],
 }
 
 
